@@ -38,5 +38,7 @@ m = {
     "not_applicable": na,
     "notes": "See DESIGN.md. Every check: rebuild harness from /repo working tree (cfg radixdlt_radixdlt_scrypto_verif on), regenerate Generated/*.lean, lake build + axiom audit of Props/<id>, corpus + generated correspondence, property oracle on the implementation, evidence. Known findings in known_findings.txt.",
 }
-json.dump(m, open(os.path.join(V, "MANIFEST.json"), "w"), indent=1)
+_tmp = os.path.join(V, "MANIFEST.json.tmp%d" % os.getpid())
+json.dump(m, open(_tmp, "w"), indent=1)
+os.replace(_tmp, os.path.join(V, "MANIFEST.json"))
 print("claimed", len(claimed), "not_applicable", len(na))
